@@ -506,7 +506,9 @@ def run(ctx):
     chunks += [(ctx.seed * 100 + j, 'loops', max(10, n // (2 * k))) for j in range(k)]
     chunks += [(ctx.seed * 100 + j, 'shared', max(15, n // (2 * k))) for j in range(2)]
     chunks += [(ctx.seed, 'small', 0)]
-    return run_chunks(_chunk, chunks, k, limit_s=120 if ctx.quick else 1200)
+    out = run_chunks(_chunk, chunks, k, limit_s=120 if ctx.quick else 1200)
+    out.notes += D.NOTES
+    return out
 
 
 def search(ctx, outcome):
